@@ -1,4 +1,5 @@
 CONSTANTS
+  CommitOrder = "publish_first"
   NanoMax = 1000000000
   Secs = {0}
   Nanos = {0, 1, 2}
